@@ -33,6 +33,12 @@ impl core::hash::Hash for TransactionId {
 }
 
 // ---------------------------------------------------------------- events.rs
+pub uninterp spec fn vx_default<T>() -> T;
+pub assume_specification<T: Default> [std::mem::take] (v: &mut T) -> (r: T)
+    ensures r == *old(v), *final(v) == vx_default::<T>();
+pub proof fn axiom_vec_default<E>()
+    ensures vx_default::<Vec<E>>()@.len() == 0,
+{ admit(); }
 //@item! stun_agent :: mod events > enum StunTransactionError
 //@item! stun_agent :: mod events > enum StunClientEvent
 //@item! stun_agent :: mod events > struct TransactionEventHandler
@@ -50,6 +56,13 @@ impl VxEvents {
     { self.events.push(event); }
 }
 impl TransactionEventHandler {
+//@item stun_agent :: mod events > impl TransactionEventHandler > fn events
+//@tags C05
+//@head
+    proof { axiom_vec_default::<StunClientEvent>(); }
+//@spec
+    ensures r@ == old(self).events@, final(self).events@.len() == 0,
+//@end
     // body = `impl Drop for TransactionEvents<'_>::drop` with self.handler := self, self.events := batch.events
 //@item stun_agent :: mod events > impl Drop for TransactionEvents<'_> > fn drop
 //@tags C05 C12 C17 C11
@@ -79,7 +92,8 @@ impl Default for MessageDecoder { #[verifier::external_body] fn default() -> Sel
 // wire image of a message produced by the encoder / accepted by the decoder (units codec, attrset)
 pub uninterp spec fn wire_of(msg: StunMessage) -> Seq<u8>;
 pub uninterp spec fn encodes_ok(msg: StunMessage, buflen: int) -> bool;
-pub uninterp spec fn decodes_to(bytes: Seq<u8>, msg: StunMessage) -> bool;
+// the message the client's (fixed, default-configured) decoder makes of a byte string, if any
+pub uninterp spec fn decoded(bytes: Seq<u8>) -> Option<StunMessage>;
 impl MessageEncoder {
     #[verifier::external_body]
     pub fn encode(&self, buffer: &mut [u8], msg: &StunMessage) -> (r: Result<usize, StunEncodeError>)
@@ -91,7 +105,8 @@ impl MessageEncoder {
 impl MessageDecoder {
     #[verifier::external_body]
     pub fn decode(&self, buffer: &[u8]) -> (r: Result<(StunMessage, usize), StunDecodeError>)
-        ensures r is Ok ==> decodes_to(buffer@, r->Ok_0.0),
+        ensures r is Ok ==> decoded(buffer@) == Some(r->Ok_0.0),
+            r is Err ==> decoded(buffer@) is None,
     { unimplemented!() }
 }
 // message.rs::create_stun_message: `None` asks for a fresh random transaction id
@@ -198,6 +213,50 @@ pub open spec fn rtt_updated(h0: RttCalcuator, h1: RttCalcuator, r: Duration) ->
         r is Err ==> !(r->Err_0 is MaxOutstandingRequestsReached),
 //@end
 
+pub open spec fn finish_rtt_rel(rtt0: StunRttCalcuator, rtt1: StunRttCalcuator, tr0: Map<TransactionId, StunTransaction>,
+    id: TransactionId, now: Instant) -> bool {
+    match (rtt0, rtt1) {
+        (StunRttCalcuator::Unreliable(h0), StunRttCalcuator::Unreliable(h1)) =>
+            h1.rm == h0.rm && h1.rc == h0.rc && h1.last_request == h0.last_request
+            && (if tr0.contains_key(id) && tr0[id].instant is Some {
+                    rtt_updated(h0.rtt, h1.rtt, dur(sat_sub(now.ns@, tr0[id].instant->Some_0.ns@)))
+                } else { h1.rtt == h0.rtt }),
+        (a, b) => a == b,
+    }
+}
+// C17: the credential mechanism after a rejected buffer: same state; the only permitted difference is the
+// marker for the transaction of a *response* that failed authentication (unreliable transport)
+pub open spec fn mech_frame(m0: Option<CredentialMechanismClient>, m1: Option<CredentialMechanismClient>, raw: Seq<u8>) -> bool {
+    (m0 is None ==> m1 is None) && (m0 is Some ==> m1 is Some && m1->Some_0.st() == m0->Some_0.st()
+        && (m1->Some_0.violated() == m0->Some_0.violated()
+            || (decoded(raw) is Some && !(decoded(raw)->Some_0.sclass() is Indication)
+                && m1->Some_0.violated() == m0->Some_0.violated().insert(decoded(raw)->Some_0.sid()))))
+}
+// what a successful on_buffer_recv did with the decoded message `m`
+pub open spec fn recv_ok_post(c0: StunClient, c1: StunClient, raw: Seq<u8>, m: StunMessage, now: Instant) -> bool {
+    let e = c1.transaction_events.events@[0];
+    &&& decoded(raw) == Some(m)
+    &&& !(m.sclass() is Request)
+    &&& c1.transaction_events.events@.len() == 1
+    // what is handed to the application: the message itself, or the mechanism's verdict about it
+    &&& (e == StunClientEvent::StunMessageReceived(m)
+         || e == StunClientEvent::Retry(m.sid())
+         || e == StunClientEvent::TransactionFailed((m.sid(), StunTransactionError::ProtectionViolated))
+         || e == StunClientEvent::TransactionFailed((m.sid(), StunTransactionError::DoNotRetry)))
+    &&& (c0.mechanism is None ==> e == StunClientEvent::StunMessageReceived(m))
+    // C10: with fingerprints in use nothing is delivered or completed unless the FINGERPRINT is present and right
+    &&& (c0.use_fingerprint ==> fp_verdict(raw, m) == Some(true))
+    &&& (if m.sclass() is Indication {
+            c1.transactions@ == c0.transactions@ && c1.timeouts == c0.timeouts && c1.rtt == c0.rtt
+        } else {
+            // C05/C12: a response is only taken for a request still awaiting one, which thereby ends: one slot freed
+            &&& c0.transactions@.contains_key(m.sid())
+            &&& c1.transactions@ == c0.transactions@.remove(m.sid())
+            &&& (forall|x: TimeoutItem| #[trigger] c1.timeouts.ms().count(x)
+                    == (if x.transaction_id != m.sid() { c0.timeouts.ms().count(x) } else { 0 }))
+            &&& finish_rtt_rel(c0.rtt, c1.rtt, c0.transactions@, m.sid(), now)
+        })
+}
 pub open spec fn dl(tr: Map<TransactionId, StunTransaction>, id: TransactionId) -> int { tr[id].rtos.deadline() }
 // C11: `(id, left)` is an accurate timer notification at time `now`: it names an outstanding request with the
 // earliest pending deadline and gives the time remaining until it (zero if overdue)
@@ -263,14 +322,7 @@ impl StunClient {
         forall|x: TimeoutItem| #[trigger] final(self).timeouts.ms().count(x)
             == (if x.transaction_id != *transaction_id { old(self).timeouts.ms().count(x) } else { 0 }),
         // Karn's rule and RFC 6298 feeding: a sample is taken iff the request was never retransmitted
-        match (old(self).rtt, final(self).rtt) {
-            (StunRttCalcuator::Unreliable(h0), StunRttCalcuator::Unreliable(h1)) =>
-                h1.rm == h0.rm && h1.rc == h0.rc && h1.last_request == h0.last_request
-                && (if old(self).transactions@.contains_key(*transaction_id) && old(self).transactions@[*transaction_id].instant is Some {
-                        rtt_updated(h0.rtt, h1.rtt, dur(sat_sub(instant.ns@, old(self).transactions@[*transaction_id].instant->Some_0.ns@)))
-                    } else { h1.rtt == h0.rtt }),
-            (a, b) => a == b,
-        },
+        finish_rtt_rel(old(self).rtt, final(self).rtt, old(self).transactions@, *transaction_id, instant),
 //@end
 //@item stun_agent :: mod client > impl StunClient > fn set_timeout
 //@tags C06 C15 C11 C12
@@ -449,6 +501,57 @@ impl StunClient {
             &&& final(self).notif_ok(final(self).transaction_events.events@[1]->RestransmissionTimeOut_0.0,
                     final(self).transaction_events.events@[1]->RestransmissionTimeOut_0.1, instant.ns@)
         },
+//@end
+//@item stun_agent :: mod client > impl StunClient > fn send_indication
+//@tags C12 C05 C13 C11
+//@rules R11
+//@spec
+    requires old(self).wf(),
+    ensures final(self).wf(),
+        // C12: indications never consume a slot; they have no timer and no retransmissions
+        final(self).transactions@ == old(self).transactions@, final(self).timeouts == old(self).timeouts,
+        final(self).rtt == old(self).rtt, final(self).max_transactions == old(self).max_transactions,
+        final(self).use_fingerprint == old(self).use_fingerprint,
+        r is Err ==> final(self).transaction_events == old(self).transaction_events,
+        r is Ok ==> final(self).transaction_events.events@.len() == 1
+            && final(self).transaction_events.events@[0] is OutputPacket,
+//@end
+//@item stun_agent :: mod client > impl StunClient > fn events
+//@tags C05
+//@spec
+    ensures final(self).transactions == old(self).transactions, final(self).timeouts == old(self).timeouts,
+        final(self).rtt == old(self).rtt, final(self).max_transactions == old(self).max_transactions,
+        final(self).mechanism == old(self).mechanism, final(self).use_fingerprint == old(self).use_fingerprint,
+        r@ == old(self).transaction_events.events@, final(self).transaction_events.events@.len() == 0,
+//@end
+//@item stun_agent :: mod client > impl StunClient > fn on_buffer_recv
+//@tags C05 C12 C17 C10 C03 C07 C08 C15
+//@rules R11
+//@closure 1
+|e: StunDecodeError| -> (x: StunAgentError)
+    ensures x is InternalError,
+//@head
+    broadcast use axiom_txid_key_model;
+//@after "let (msg, _) ="
+    let ghost gm = msg;
+//@tail
+    proof {
+        assert(recv_ok_post(*old(self), *self, buffer@, gm, instant));
+    }
+//@spec
+    requires old(self).wf(),
+    ensures final(self).wf(),
+        final(self).max_transactions == old(self).max_transactions,
+        final(self).use_fingerprint == old(self).use_fingerprint,
+        // C17: a rejected buffer changes nothing (but the documented marker)
+        r is Err ==> {
+            &&& final(self).transactions@ == old(self).transactions@
+            &&& final(self).timeouts == old(self).timeouts
+            &&& final(self).rtt == old(self).rtt
+            &&& final(self).transaction_events == old(self).transaction_events
+            &&& mech_frame(old(self).mechanism, final(self).mechanism, buffer@)
+        },
+        r is Ok ==> decoded(buffer@) is Some && recv_ok_post(*old(self), *final(self), buffer@, decoded(buffer@)->Some_0, instant),
 //@end
 }
 proof fn vx_sentinel() ensures false {}
